@@ -90,7 +90,16 @@ Fixpoint gscan (bytes : string) (need : ascii) (rest : string) : bool * option (
     the former conditions g2 (trailing blanks), g3 (one value byte per line break) and g4 (header bytes) are gone.
     What remains: when the lines run out, or the value ends in a consumed break, only line breaks may be left
     (a consumed break gets its position on the NEXT iteration, so a trailing consumed ' ' would be lost). *)
-Fixpoint lay_ok (ls : list string) (col minCol : Z) (pending : option ascii) (need : ascii) (rest : string) : bool :=
+Fixpoint no_backslash_b (s : string) : bool :=
+  match s with
+  | EmptyString => true
+  | String c r => negb (Ascii.eqb c backslash) && no_backslash_b r
+  end.
+
+(** [dq] = the node is double quoted: the guard then also requires that the scanned part of every line contains no
+    backslash (no escape sequence: the scan is the plain byte scan); double-quoted scalars WITH escapes are outside
+    the guard (self-escapes: correspondence and oracle only; hidden bytes: known finding C06-dq-escape). *)
+Fixpoint lay_ok (dq : bool) (ls : list string) (col minCol : Z) (pending : option ascii) (need : ascii) (rest : string) : bool :=
   match ls with
   | [] =>
       match pending with
@@ -102,7 +111,9 @@ Fixpoint lay_ok (ls : list string) (col minCol : Z) (pending : option ascii) (ne
         if slen line =? 0 then Some (false, Some (need, rest))
         else match adjust_col line col need rest with
              | None => None
-             | Some col2 => Some (gscan (sdrop (Z.to_nat (col2 - 1)) line) need rest)
+             | Some col2 =>
+                 if dq && negb (no_backslash_b (sdrop (Z.to_nat (col2 - 1)) line)) then None
+                 else Some (gscan (sdrop (Z.to_nat (col2 - 1)) line) need rest)
              end in
       match res with
       | None => false
@@ -111,9 +122,9 @@ Fixpoint lay_ok (ls : list string) (col minCol : Z) (pending : option ascii) (ne
           if is_fold_char n then
             match r with
             | EmptyString => Ascii.eqb n newline
-            | String n' r' => lay_ok more minCol minCol (Some n) n' r'
+            | String n' r' => lay_ok dq more minCol minCol (Some n) n' r'
             end
-          else lay_ok more minCol minCol None n r
+          else lay_ok dq more minCol minCol None n r
       end
   end.
 
@@ -126,7 +137,7 @@ Definition node_ok (lines : list string) (n : snode) (minCol : Z) : bool :=
       negb (all_newlines (String need rest)) &&
       if sn_block n then
         (0 <=? sn_line n) &&
-        lay_ok (skipn (Z.to_nat (sn_line n)) lines) minCol minCol None need rest
+        lay_ok (sn_dq n) (skipn (Z.to_nat (sn_line n)) lines) minCol minCol None need rest
       else
         (1 <=? sn_line n) &&
         let ls := skipn (Z.to_nat (sn_line n - 1)) lines in
@@ -134,7 +145,7 @@ Definition node_ok (lines : list string) (n : snode) (minCol : Z) : bool :=
                     | l :: _ => if slen l =? 0 then sn_col n else first_col l n
                     | [] => sn_col n
                     end in
-        lay_ok ls col0 minCol None need rest
+        lay_ok (sn_dq n) ls col0 minCol None need rest
   end.
 
 Definition no_newline (s : string) : Prop := forall k, String.get k s <> Some newline.
@@ -228,6 +239,9 @@ Definition one_line (lines : list string) (n : snode) (token : string) : Prop :=
     ascii_only pre = true /\
     sn_col n = slen pre + 1.
 
+(** [DoubleQuotedSimple]: a double-quoted scalar none of whose bytes needs an escape and whose line contains no
+    backslash from the scalar on (see [one_line_noesc]); double-quoted scalars with the self-escapes are decoded token by
+    token by the scanner and are covered by the correspondence and the oracle, not by a layout theorem. *)
 Inductive style1 := Plain | SingleQuoted | DoubleQuotedSimple.
 
 (** Presentation token of a non-empty value in a one-line style. *)
@@ -243,8 +257,11 @@ Definition token_of (st : style1) (v : string) : string :=
 Definition Lay1 (st : style1) (lines : list string) (n : snode) : Prop :=
   sn_value n <> EmptyString /\ all_newlines (sn_value n) = false /\
   sn_block n = false /\ sn_anchor n = EmptyString /\
+  sn_dq n = match st with DoubleQuotedSimple => true | _ => false end /\
   one_line lines n (token_of st (sn_value n)) /\
-  (st = Plain -> starts_with_space (sn_value n) = false).
+  (st = Plain -> starts_with_space (sn_value n) = false) /\
+  (st = DoubleQuotedSimple ->
+     exists l, line_at lines (sn_line n) = Some l /\ no_backslash_b (sdrop (Z.to_nat (sn_col n - 1)) l) = true).
 
 (** Block scalars ([|] literal, [>] folded).  The key line reads [keyline_pre ++ header] where [header] is the
     rest of the line from the indicator on (indicator, chomping/indentation indicators, blanks, comment).  The
@@ -292,7 +309,7 @@ Definition bl_value (literal : bool) (b : block_layout) : string :=
   (bl_first b ++ vsuffix (block_sep literal) (bl_items b) (bl_tail b))%string.
 
 Definition bl_node (literal : bool) (b : block_layout) : snode :=
-  mksn (bl_value literal b) (Z.of_nat (List.length (bl_pre b)) + 1) (slen (bl_keyline_pre b) + 1) true EmptyString.
+  mksn (bl_value literal b) (Z.of_nat (List.length (bl_pre b)) + 1) (slen (bl_keyline_pre b) + 1) true EmptyString false.
 
 (** bodies are non-blank; in a folded block no body starts with a blank and there are no blank lines; a blank
     line is never the last item (trailing blank lines belong to [after] and [tail]) *)
